@@ -255,7 +255,7 @@ def run(ctx):
     for si, shp in enumerate(shapes):
         nl = count_leaves(shp)
         combos = list(itertools.product(range(len(leaves)), repeat=nl)) if nl <= 2 else \
-            [tuple(rng.randrange(len(leaves)) for _ in range(nl)) for _ in range(ctx.size(12, 200))]
+            [tuple(rng.randrange(len(leaves)) for _ in range(nl)) for _ in range(ctx.size(30, 2000))]
         for ci, combo in enumerate(combos):
             item += 1
             if not ctx.mine(item):
@@ -290,7 +290,7 @@ def run(ctx):
     lookups(ctx, comps, assigns, rng)
 
     # ---- 5. seeded random larger trees ------------------------------------------------------------------------------
-    for i in range(ctx.size(300, 20_000) // ctx.nshards):
+    for i in range(ctx.size(3000, 2_000_000) // ctx.nshards):
         tree = random_tree(rng, leaves, depth=rng.randrange(2, 5))
         bx = ir.BoolExpr(tree)
         route = rng.choice(routes)
